@@ -83,6 +83,10 @@ CHECKS = {
          "Generated ceremonies (circuit with 0-3 commitments, domain 2..64, 1-4 contributions per phase, every contribution passed through WriteTo/ReadFrom) on all 7 curves: honest chains and their prefixes must verify, give identical keys on re-verification, and the sealed keys must prove, verify and reject a wrong public input; chains with one serialized group element replaced (other element, stale value, independent chain, multiple, infinity, generator, bit flip), whole vectors hybridised, a secret rescaled consistently, challenges altered, contributions swapped / dropped / duplicated / spliced, or verified against other commons / another circuit must be rejected. Every slot kind of both phases is covered (table in the evidence).",
          "The byte-slot layout is derived from the marshal code and validated by re-encoding; slice length prefixes are never edited (open finding F05); an emptied challenge is documented to be filled in by the verifier and nothing is asserted there.",
          "DESIGN.md §3 C18"),
+ "C17": ("differential property-based testing: native verifier vs in-circuit verifier (rapid, typed surgery before assignment)",
+         "For generated inner circuits (fixed shape per outer circuit) on 5 inner/outer pairings (two-chains and emulated), Groth16 and PLONK, fixed / witness / constant / switched keys, complete arithmetic and subgroup-check options: genuine, replayed, element-edited (incl. cofactor-torsion points), cross-key and key-switching triples are given to the native verifier (with the matching recursion options) and to the outer circuit (test engine; compiled solve for a subset); accept <=> satisfiable in both directions.",
+         "The native verdict is the oracle; incomplete arithmetic is only asserted outside its documented exceptional inputs; emulated pairs get few cases in the quick tier; scalars near r-k are not generated (open finding F27).",
+         "DESIGN.md §3 C17"),
 }
 
 PENDING = {}
